@@ -36,7 +36,7 @@ func genC07(seed uint64, tier string) *Case {
 	from := []string{"n1", "n2", "n0", "ghost"}
 	nr := 3 + g.Intn(12)
 	for i := 0; i < nr; i++ {
-		c.Steps = append(c.Steps, Step{Op: "re", I: g.Intn(nrt), J: g.Intn(nq), S: []string{"ack", "resp", "resp", "ack", "wrongid", "wrongtime"}[g.Intn(6)], T: from[g.Intn(len(from))], K: g.Intn(3)})
+		c.Steps = append(c.Steps, Step{Op: "re", I: g.Intn(nrt), J: g.Intn(nq), S: []string{"ack", "resp", "resp", "ack", "wrongid", "wrongtime", "wrongid-ack", "wrongtime-ack"}[g.Intn(8)], T: from[g.Intn(len(from))], K: g.Intn(3)})
 		if g.Bool(0.08) {
 			// the application closes the query itself before the deadline
 			c.Steps = append(c.Steps, Step{Op: "close", J: g.Intn(nq)})
@@ -194,6 +194,13 @@ func execC07(r *Run) {
 					m.LTime = q.ltime + 1
 					m.Payload = []byte("misrouted")
 					r.Fault("reply-wrong-time")
+				case "wrongid-ack":
+					// an acknowledgement of another query that happens to carry this one's time
+					m.ID, m.Flags, m.From = q.id+7, qfAck, "x-"+s.T
+					r.Fault("ack-wrong-id")
+				case "wrongtime-ack":
+					m.LTime, m.Flags, m.From = q.ltime+1, qfAck, "x-"+s.T
+					r.Fault("ack-wrong-time")
 				}
 				if q.closedByApp && s.S == "resp" {
 					q.sinceClose[string(m.Payload)] = true
@@ -271,6 +278,9 @@ func execC07(r *Run) {
 		}
 		seenAck := map[string]int{}
 		for _, a := range q.acks {
+			if strings.HasPrefix(a, "x-") {
+				r.Fail("misrouted-reply", "C07 misrouted-ack", "query %s received an acknowledgement (from %s) that was addressed to another query id or time", q.tag, a)
+			}
 			seenAck[a]++
 			if seenAck[a] > 1 {
 				r.Fail("duplicate-ack", "C07 dup-ack", "query %s received %d acknowledgements from %s", q.tag, seenAck[a], a)
